@@ -15,7 +15,7 @@ else
 fi
 for p in "$@"; do
   t0=$(date +%s)
-  out=$(VERIF_REPO=$wt VERIF_REPLAY_DIR=/root/scratch/replays_$name /verif/check "$p" quick 2>&1)
+  out=$(VERIF_REPO=$wt VERIF_REPLAY_DIR=/root/scratch/replays_$name /verif/check "$p" ${TIER:-quick} 2>&1)
   rc=$?
   n=$(echo "$out" | grep -c '^VIOLATION')
   echo "$name $p rc=$rc violations=$n secs=$(( $(date +%s) - t0 )) :: $(echo "$out" | grep -m1 'test=' | cut -c1-220)"
